@@ -51,7 +51,13 @@ func runC12(c *Ctx) {
 		c.R.Hold(rc, "struct fields", "placement-dependent fields only in allowed holders")
 	}
 	// required derived facts: the engine must have seen the anchors it reasons about
-	want := map[string]int{"text.File.offset": 1, "text.File.len": 0, "parsley.FileSet.pos": 1, "parsley.FileSet.offset[]": 1, "text.File.lines[]": 0}
+	m := c.model()
+	if !m.ok {
+		c.R.Fail("coverage-lost", ra, "text model", "-", "-", "roles of the file fields not discovered: "+m.why)
+		return
+	}
+	// the field SetOffset writes moves with the placement, the field Len() returns and the line table do not
+	want := map[string]int{"text.File." + m.Offset: 1, "text.File." + m.Len: 0, "text.File." + m.Lines + "[]": 0}
 	var wk []string
 	for k := range want {
 		wk = append(wk, k)
